@@ -3,6 +3,7 @@ import Driver.LibMem
 import Driver.C17
 import Driver.C18
 import Driver.C19
+import Driver.C08
 
 def main (args : List String) : IO UInt32 :=
   match args with
@@ -11,4 +12,5 @@ def main (args : List String) : IO UInt32 :=
   | ["c17"] => Driver.C17.main
   | ["c18"] => Driver.C18.main
   | ["c19"] => Driver.C19.main
+  | ["c08"] => Driver.C08.main
   | _ => do IO.eprintln "usage: nridrv <property>"; return 2
